@@ -310,3 +310,51 @@ Proof.
 Qed.
 End EndToEnd.
 
+(* ---------------------------------------------------------------- non-vacuity *)
+(* 70 bytes, mixed case, with N, n, '-', X, 0, 255 and 200 among them *)
+Definition bridge_text : list N :=
+  [65;67;71;84;97;99;103;116;78;110; 45;65;67;67;71;71;84;84;0;255; 200;65;65;65;67;103;116;84;84;71;
+   71;67;65;84;116;97;99;71;78;78; 65;67;71;84;65;67;71;84;84;71; 99;97;84;71;67;65;84;71;67;65;
+   116;116;103;103;99;99;97;97;88;84].
+
+Definition c16_5 : kcfg := mkc 16 5.
+Definition c64_32 : kcfg := mkc 64 32.
+Lemma c16_5_shipped : In c16_5 shipped.
+Proof. unfold shipped, c16_5. cbn [In]. do 3 right. left. reflexivity. Qed.
+Lemma c64_32_shipped : In c64_32 shipped.
+Proof. unfold shipped, c64_32. cbn [In]. do 15 right. left. reflexivity. Qed.
+
+Example bridge_ex_hyps :
+  length bridge_text = 70%nat /\ forallb (fun b => b <? 256) bridge_text = true /\
+  forallb (fun b => b <? 128) bridge_text = false /\
+  length (filter (fun b => negb (ascii_valid b)) bridge_text) = 9%nat.
+Proof. vm_compute. repeat split. Qed.
+
+Definition bridge_d : AsciiModel.dstr := mkds [1953155253968859113; 4350507046658172154; 5778118321916346368] 70.
+Definition the {A} (o : option (list A)) : list A := match o with Some l => l | None => [] end.
+
+Example bridge_ex_k5 :
+  let d := bridge_d in let ks := the (kmers_from_ascii c16_5 bridge_text) in
+    from_acgt_bytes true bridge_text = Some d /\ from_acgt_bytes false bridge_text = Some d /\
+    ds_inv d = true /\ d_invb (to_d d) = true /\ d_from_bytes (map ascii_base bridge_text) = Some (to_d d) /\
+    iter_kmers c16_5 (d_len (to_d d)) (d_get (to_d d)) (d_get_kmer c16_5 (to_d d)) = Some ks /\
+    kmers_from_ascii c16_5 bridge_text = Some ks /\ length ks = 66%nat /\
+    d_get_kmer c16_5 (to_d d) 31 = Some (nth 31 ks 0) /\
+    decode 5 (nth 31 ks 0) = kmer_at 5 (map ascii_base bridge_text) 31 /\
+    decode 5 (nth 31 ks 0) = [1; 0; 3; 3; 0].
+Proof. vm_compute. repeat split. Qed.
+
+Example bridge_ex_k32 :
+  let d := bridge_d in let ks := the (kmers_from_ascii c64_32 bridge_text) in
+    iter_kmers c64_32 (d_len (to_d d)) (d_get (to_d d)) (d_get_kmer c64_32 (to_d d)) = Some ks /\
+    kmers_from_ascii c64_32 bridge_text = Some ks /\ length ks = 39%nat /\
+    d_get_kmer c64_32 (to_d d) 17 = Some (nth 17 ks 0) /\
+    decode 32 (nth 17 ks 0) = kmer_at 32 (map ascii_base bridge_text) 17.
+Proof. vm_compute. repeat split. Qed.
+
+(* a history (push, extend, set, reverse-complement, push) ends in the canonical packing of the list result *)
+Example bridge_ex_history :
+  let ops := [DPush 2; DExtend (map ascii_base bridge_text); DSet 3 1; DRc; DPush 3] in
+  dops_ok 0 ops = true /\ length (fold_left sdstep ops []) = 72%nat /\
+  dsteps d_new ops = Some (to_d (ds_of_dna (fold_left sdstep ops []))).
+Proof. vm_compute. repeat split. Qed.
